@@ -15,7 +15,7 @@
    ReqOutcomes / ResOutcomes (one disjunct per branch of each state function); Run (micro-programs up to the next stop); the actions
    DataEnter / CloseMark / CloseEnter / StepBegin / CbStep / CbsDone / RetStep / EndCallStep; the trace binding T* and TSpec; views and
    invariants.  Deliberate heuristics and repaired defects are named where they occur (FixD4, the 407 branch, sticky STOP / ERROR, the
-   interim 100 branch, hard-limit failure at DATA_BUFFER, request decompression in trace mode only).                                       *)
+   interim 100 branch, hard-limit failure at DATA_BUFFER and at consolidation, request decompression in trace mode only).                                       *)
 EXTENDS Integers, Sequences, FiniteSets, TLC, Json, IOUtils
 
 CONSTANTS MaxTx, MaxCalls, MaxAvail, AutoDestroy, CbFail, FixD4, TraceMode,
@@ -135,6 +135,13 @@ ReqCompleteProg(p, i) ==
    ELSE <<>>)
   \o <<SetIn(IF p.txs[i].p09 THEN "REQ_IGNORE_DATA_AFTER_HTTP_0_9" ELSE "REQ_IDLE"), Fin(i, "ign"), Set("in_tx", 0)>>
 
+\* a sub-program whose failure the caller ignores (RES_IDLE completing a dangling request: the return value of
+\* htp_tx_state_request_complete is dropped): a failing callback or an ERROR inside it only ends the sub-program
+Guard(pr) == [j \in 1..Len(pr) |->
+               IF pr[j].op = "cb" THEN [op |-> "cb", n |-> pr[j].n, tx |-> pr[j].tx, f |-> "skip", skip |-> Len(pr) - j]
+               ELSE IF pr[j].op = "cbs" THEN [op |-> "cbs", n |-> pr[j].n, tx |-> pr[j].tx, f |-> "skip", k |-> 0, skip |-> Len(pr) - j]
+               ELSE IF pr[j].op = "ret" THEN [op |-> "jump", n |-> Len(pr) - j]
+               ELSE pr[j]]
 \* htp_tx_state_response_complete_ex(tx, 0)
 ResCompleteProg(p, i) ==
   (IF p.txs[i].sp # COMPLETE THEN
@@ -350,7 +357,7 @@ PickTxRes(p) ==
   ELSE IF Len(p.txs) >= MaxTx THEN [P |-> p, prog |-> <<Ret("ERROR")>>, newtx |-> FALSE]
   ELSE LET t == Len(p.txs) + 1 IN
        [P |-> [p EXCEPT !.txs = Append(@, NewPTx), !.pipelined = (@ \/ Len(p.txs) > p.onti)],
-        prog |-> (IF p.in_state = "REQ_FINALIZE" /\ p.in_tx # 0 THEN ReqCompleteProg(p, p.in_tx) ELSE <<>>)
+        prog |-> (IF p.in_state = "REQ_FINALIZE" /\ p.in_tx # 0 THEN Guard(ReqCompleteProg(p, p.in_tx)) ELSE <<>>)
                  \o <<Set("in_tx", t), Set("out_tx", t), Tp("res_idle_no_request", t), SetIn("REQ_FINALIZE"), Set("onti", p.onti + 1),
                       Cb("response_start", t, "prop"), SetOut("RES_LINE"), SetSp(t, LINE), Ret("OK")>>, newtx |-> TRUE]
 
@@ -370,6 +377,7 @@ Run(p, pr, o) ==
       [] op.op = "use" -> Run([p EXCEPT !.pend = @ + op.u], rest, o)
       [] op.op = "seen100" -> Run([p EXCEPT !.txs[op.tx].c100 = @ + 1], rest, o)
       [] op.op = "tp" -> Run(p, rest, OStep(o, TpEv(op.id, op.tx)))
+      [] op.op = "jump" -> Run(p, SubSeq(rest, op.n + 1, Len(rest)), o)
       [] op.op = "newtx_req" -> LET r == NewTxReq(p) IN Run(r.P, r.prog \o rest, o)
       [] op.op = "picktx_res" -> LET r == PickTxRes(p) IN Run(r.P, r.prog \o rest, o)
 
@@ -413,9 +421,16 @@ CloseEnter == /\ cur = "none" /\ P.cl \in {1, 2}
 
 \* deferred consumption reached while running a micro-program is taken from the chunk when the step settles
 Settle(p) == [p EXCEPT !.pend = 0, !.used = @ + p.pend]
+\* every line-reading state appends the bytes it read to the line buffer before it looks at the line (htp_connp_re[qs]_consolidate_data);
+\* with a line already buffered that can exceed the hard field limit, and the state function fails (C10: "reported as an error")
+LineStatesQ == {"REQ_LINE", "REQ_HEADERS", "REQ_BODY_CHUNKED_LENGTH", "REQ_FINALIZE", "REQ_CONNECT_PROBE_DATA"}
+LineStatesS == {"RES_LINE", "RES_HEADERS", "RES_BODY_CHUNKED_LENGTH", "RES_FINALIZE"}
+OverLimit(p) == IF avail = 0 THEN {}
+                ELSE IF cur = "req" THEN (IF p.in_buf /\ p.in_state \in LineStatesQ THEN {O(u, <<Ret("ERROR")>>) : u \in U(1, avail)} ELSE {})
+                ELSE (IF p.out_buf /\ p.out_state \in LineStatesS THEN {O(u, <<Ret("ERROR")>>) : u \in U(1, avail)} ELSE {})
 StepBegin ==
   /\ cur # "none" /\ prog = <<>>
-  /\ \E o \in (IF cur = "req" THEN ReqOutcomes(P) ELSE ResOutcomes(P)) :
+  /\ \E o \in ((IF cur = "req" THEN ReqOutcomes(P) ELSE ResOutcomes(P)) \cup OverLimit(P)) :
         /\ o.use <= avail
         /\ LET r == Run([P EXCEPT !.used = @ + o.use], o.prog, obs) IN
              /\ P' = Settle(r.P) /\ prog' = r.prog /\ obs' = r.obs /\ avail' = avail - o.use - r.P.pend
@@ -433,6 +448,7 @@ CbStep(name) ==
        LET o1 == ObsCbR(obs, P, op.n, op.tx, res)
            keep == IF op.op = "cbs" THEN <<[op EXCEPT !.k = @ + 1]>> ELSE <<>>
            pr == IF res = "OK" \/ op.f = "ign" THEN keep \o rest
+                 ELSE IF op.f = "skip" THEN SubSeq(rest, op.skip + 1, Len(rest))
                  ELSE IF op.f = "err" THEN <<Ret("ERROR")>> ELSE <<Ret(res)>>
            r == Run(P, pr, o1)
        IN /\ (op.op = "cbs" /\ ~TraceMode => op.k < 2)
@@ -443,6 +459,14 @@ CbStep(name) ==
 CbsDone ==
   /\ cur # "none" /\ prog # <<>> /\ Head(prog).op = "cbs"
   /\ LET r == Run(P, Tail(prog), obs) IN P' = Settle(r.P) /\ prog' = r.prog /\ obs' = r.obs /\ avail' = avail - r.P.pend
+  /\ UNCHANGED <<cur, calls>>
+
+\* the end-of-body call goes to the transaction's own hooks (the body processors) before the configured ones; a processor that was
+\* finalised already refuses the second call, and the configured hooks never see it.  Only a guarded completion re-issues that call.
+SilentHookFail ==
+  /\ cur # "none" /\ prog # <<>> /\ Head(prog).op = "cb" /\ Head(prog).f = "skip" /\ Head(prog).n = "request_body_end"
+  /\ LET r == Run(P, SubSeq(Tail(prog), Head(prog).skip + 1, Len(Tail(prog))), obs) IN
+       P' = Settle(r.P) /\ prog' = r.prog /\ obs' = r.obs /\ avail' = avail - r.P.pend
   /\ UNCHANGED <<cur, calls>>
 
 StreamOf(rc) == CASE rc \in {"DATA", "DATA_BUFFER"} -> "DATA"
@@ -508,6 +532,7 @@ Next ==
         \/ StepBegin
         \/ \E nm \in AllHooks : CbStep(nm)
         \/ CbsDone
+        \/ SilentHookFail
         \/ RetStep
         \/ EndCallStep
 
@@ -531,6 +556,7 @@ TCb == /\ HasLine /\ Line.e = "Cb" /\ prog # <<>> /\ Head(prog).op \in {"cb", "c
        /\ P.txs[Line.tx + 1].rp = Line.rp /\ P.txs[Line.tx + 1].sp = Line.sp
        /\ CbStep(Head(prog).n) /\ l' = l + 1
 TCbsDone == CbsDone /\ l' = l
+TSilentHookFail == SilentHookFail /\ l' = l
 TTP == /\ HasLine /\ Line.e = "TP" /\ l' = l + 1 /\ UNCHANGED <<P, prog, cur, avail, calls, obs>>
 TSE == /\ HasLine /\ Line.e = "SE" /\ prog # <<>> /\ Head(prog).op = "ret" /\ Head(prog).v = Line.rc
        /\ (IF Line.d = "req" THEN P.in_state = Line.s2 ELSE P.out_state = Line.s2)
@@ -551,7 +577,7 @@ TRet == /\ HasLine /\ Line.e = "Ret" /\ prog # <<>> /\ Head(prog).op = "endcall"
 \* records that carry no parser step (connection open, final dump, end of execution, teardown)
 \* and the file-data callbacks of the body processors (multipart / PUT), which are not steps of the connection parser
 TSkip == /\ HasLine /\ (Line.e \in {"Open", "Final", "End", "Destroy", "Fault"} \/ (Line.e = "Cb" /\ Line.n = "request_file_data")) /\ l' = l + 1 /\ UNCHANGED <<P, prog, cur, avail, calls, obs>>
-TNext == TSkip \/ TReset \/ TCall \/ TClose \/ TCloseEnter \/ TInnerEnd \/ TRetClose \/ TSB \/ TCb \/ TCbsDone \/ TTP \/ TSE \/ TRet
+TNext == TSkip \/ TReset \/ TCall \/ TClose \/ TCloseEnter \/ TInnerEnd \/ TRetClose \/ TSB \/ TCb \/ TCbsDone \/ TSilentHookFail \/ TTP \/ TSE \/ TRet
 TSpec == Init /\ [][TNext]_vars
 NotAccepted == l <= Len(TraceLog)
 ASSUME TLCSet(1, 0)
